@@ -148,6 +148,7 @@ package generator
 //@   assigns *out
 //@   ensures [C17] format-independent: independent_of(emitted(out), format)
 //@   ensures [C01,C19] parses: parses(emitted(out)) && !mentions(emitted(out), "j") && out.indent == old(out.indent)
+//@   ensures [C01] no-fmt-in-the-fragment: !uses_pkg(emitted(out), "fmt")
 //@   ensures [C09] applies: forall rnil bool :: forall has bool :: forall vnil bool :: (rnil ==> !has)
 //@       ==> ((assigned(emitted(out), sigma("raw", graw(rnil, v.jsonName, has, vnil), "plain", gobj(), "plain." + v.fieldName, gobj()), "plain." + v.fieldName)
 //@             || assigned(emitted(out), sigma("raw", graw(rnil, v.jsonName, has, vnil), "plain", gobj(), "plain." + v.fieldName, gobj()), "plain")) <==> (!has || vnil))
@@ -156,8 +157,30 @@ package generator
 //@       && !panics(emitted(out), sigma("raw", graw(rnil, v.jsonName, has, vnil), "plain", gobj(), "plain." + v.fieldName, gobj()))
 
 //@ func (*defaultValidator).desc
-//@   props C09 C04
+//@   props C09 C04 C01
 //@   ensures [C09] needs-raw: result.requiresRawAfter && !result.beforeJSONUnmarshal
+//@   ensures [C01] no-fmt: !result.hasError
+
+// What a validator says about its fragment decides the imports and the place of
+// the fragment: hasError <=> the fragment calls fmt.Errorf (a missing and an unused
+// "fmt" both break the build, C01); a fragment that reads the decoded value comes
+// after the decode (C19), one that reads the raw map asks for it.
+//@ func (*nullTypeValidator).desc
+//@   props C01 C03 C19
+//@   ensures [C01] says-it-uses-fmt: result.hasError
+//@   ensures [C03,C19] after-decode-with-raw: !result.beforeJSONUnmarshal && result.requiresRawAfter
+//@ func (*arrayValidator).desc
+//@   props C01 C07 C19
+//@   ensures [C01] says-it-uses-fmt: result.hasError
+//@   ensures [C07,C19] after-decode: !result.beforeJSONUnmarshal
+//@ func (*stringValidator).desc
+//@   props C01 C06 C19
+//@   ensures [C01] says-it-uses-fmt: result.hasError
+//@   ensures [C06,C19] after-decode: !result.beforeJSONUnmarshal
+//@ func (*numericValidator).desc
+//@   props C01 C05 C19
+//@   ensures [C01] says-it-uses-fmt: result.hasError
+//@   ensures [C05,C19] after-decode: !result.beforeJSONUnmarshal
 
 // ---- null ------------------------------------------------------------------
 //@ func (*nullTypeValidator).generate
@@ -459,7 +482,7 @@ package generator
 //@   shape t = new
 //@   shape t.Type = strs() | strs(string) | strs(null) | strs(string,null) | strs(null,integer) | strs(string,integer) | strs(null,null) | strs(string,integer,null)
 //@   shape t.AnyOf = types() | types(a:object) | types(a:object;b:object) | types(a:object;b:string) | types(a:string,null;b:string,null) | types(a:string;b:string;c:integer)
-//@   shape t.AllOf = types() | types(a:object;b:object) | types(a:object;b:array)
+//@   shape t.AllOf = types() | types(a:object) | types(a:object;b:object) | types(a:object;b:array)
 //@   assigns nothing
 //@   ensures [C03,C02] single: len(t.Type) == 1 ==> result0 == t.Type[0] && !result1
 //@   ensures [C03,C02] nullable-pair: len(t.Type) == 2 && (is_null(t.Type[0]) != is_null(t.Type[1])) ==> result1 && result0 == (is_null(t.Type[0]) ? t.Type[1] : t.Type[0])
@@ -746,6 +769,87 @@ package generator
 //@   props C18 C11
 //@   after-loop generateAnyOfType addStructField
 //@   after-loop generateAllOfType addStructField
+
+// ---- the goJSONSchema extension: imports and a custom Go type --------------------
+// The packages an extension lists are imported under their own names (an import
+// with an empty path, or the path as the name, does not compile), and a custom
+// type replaces whatever the schema would have produced.
+//@ func (*schemaGenerator).generateType@extension
+//@   props C01 C02
+//@   option verify-only
+//@   option inline (*schemaGenerator).determineTypeName PrimitiveTypeFromJSONSchemaType getMinIntType adjustForSignedBounds adjustForUnsignedBounds NormalizeBounds
+//@   option shape-zero t. scope.
+//@   option noframe
+//@   shape g = sgen()
+//@   shape t = new
+//@   shape t.Ref = ""
+//@   shape t.Enum = nil
+//@   shape t.Type = strs(string)
+//@   shape t.Format = ""
+//@   shape t.GoJSONSchemaExtension = new
+//@   shape t.GoJSONSchemaExtension.Imports = strs() | strs(x/y)
+//@   shape t.GoJSONSchemaExtension.Type = nil | new
+//@   ensures [C01] extension-imports-are-added: len(t.GoJSONSchemaExtension.Imports) == 1 ==> imports_count(g.output.file.Package.Imports, "x/y") == 1 && imports_count(g.output.file.Package.Imports, "") == 0
+//@   ensures [C01] nothing-else-imported: len(g.output.file.Package.Imports) == len(t.GoJSONSchemaExtension.Imports)
+//@   ensures [C02] custom-type-wins: t.GoJSONSchemaExtension.Type != nil ==> result1 == nil && dyn(result0) == "*codegen.CustomNameType" && result0.Type == *t.GoJSONSchemaExtension.Type
+//@   ensures [C02] otherwise-the-schema-type: t.GoJSONSchemaExtension.Type == nil ==> result1 == nil && dyn(result0) == "codegen.PrimitiveType"
+//@ func (*schemaGenerator).generateTypeInline@extension
+//@   props C01 C02
+//@   option verify-only
+//@   option inline PrimitiveTypeFromJSONSchemaType getMinIntType adjustForSignedBounds adjustForUnsignedBounds NormalizeBounds
+//@   option shape-zero t. scope.
+//@   option noframe
+//@   shape g = sgen()
+//@   shape t = new
+//@   shape t.Ref = ""
+//@   shape t.Enum = nil
+//@   shape t.subSchemaTypeElem = false
+//@   shape t.Type = strs(string)
+//@   shape t.Format = ""
+//@   shape t.GoJSONSchemaExtension = new
+//@   shape t.GoJSONSchemaExtension.Imports = strs() | strs(x/y)
+//@   shape t.GoJSONSchemaExtension.Type = nil | new
+//@   ensures [C01] extension-imports-are-added: len(t.GoJSONSchemaExtension.Imports) == 1 ==> imports_count(g.output.file.Package.Imports, "x/y") == 1 && imports_count(g.output.file.Package.Imports, "") == 0
+//@   ensures [C01] nothing-else-imported: len(g.output.file.Package.Imports) == len(t.GoJSONSchemaExtension.Imports)
+//@   ensures [C02] custom-type-wins: t.GoJSONSchemaExtension.Type != nil ==> result1 == nil && dyn(result0) == "*codegen.CustomNameType" && result0.Type == *t.GoJSONSchemaExtension.Type
+//@   ensures [C02] otherwise-the-schema-type: t.GoJSONSchemaExtension.Type == nil ==> result1 == nil && dyn(result0) == "codegen.PrimitiveType"
+
+// Every import these functions add is a plain one: the path first, no alias.
+//@ func (*schemaGenerator).addStructField@imports
+//@   props C01
+//@   arg-from AddImport 1 const:""
+//@ func (*schemaGenerator).generateType@imports
+//@   props C01
+//@   arg-from AddImport 1 const:""
+//@ func (*schemaGenerator).generateTypeInline@imports
+//@   props C01
+//@   arg-from AddImport 1 const:""
+//@ func (*schemaGenerator).generateUnmarshaler@imports
+//@   props C01
+//@   arg-from AddImport 1 const:""
+
+// ---- an object with properties: the additional-properties field and the object's default ----
+// One property p (added by the real addStructField, whose own posts are above);
+// additionalProperties absent, `false` (decoded as Not = {}), untyped, of one type,
+// or of two types.
+//@ func (*schemaGenerator).generateStructType@struct-arm
+//@   props C03 C02 C09 C18
+//@   option verify-only
+//@   option inline (*schemaGenerator).addStructField
+//@   option shape-zero t. prop. scope.
+//@   option noframe
+//@   shape g = sgen()
+//@   shape t = new
+//@   shape t.Properties = propmap(p)
+//@   shape t.Default = nil | anystring
+//@   shape t.AdditionalProperties = nil | new
+//@   shape t.AdditionalProperties.Not = nil | new
+//@   shape t.AdditionalProperties.Type = strs() | strs(string) | strs(integer) | strs(object) | strs(string,integer)
+//@   ensures [C18,C03] two-types-for-additional-properties-fail: t.AdditionalProperties != nil && t.AdditionalProperties.Not == nil && len(t.AdditionalProperties.Type) == 2 ==> result1 != nil
+//@   ensures [C03,C02] additional-properties-field-iff-allowed: result1 == nil ==> len(result0.Fields) == ((t.AdditionalProperties != nil && t.AdditionalProperties.Not == nil) ? 2 : 1) && ((t.AdditionalProperties != nil && t.AdditionalProperties.Not == nil) ==> last(result0.Fields).Name == "AdditionalProperties")
+//@   ensures [C03,C02] typed-additional-properties: result1 == nil && t.AdditionalProperties != nil && t.AdditionalProperties.Not == nil && len(t.AdditionalProperties.Type) == 1 ==> dyn(last(result0.Fields).Type) == "codegen.MapType" && (t.AdditionalProperties.Type[0] == "string" ==> last(result0.Fields).Type.ValueType.Type == "string") && (t.AdditionalProperties.Type[0] == "integer" ==> last(result0.Fields).Type.ValueType.Type == "int") && (t.AdditionalProperties.Type[0] == "object" ==> dyn(last(result0.Fields).Type.ValueType) == "codegen.EmptyInterfaceType")
+//@   ensures [C03] untyped-additional-properties: result1 == nil && t.AdditionalProperties != nil && t.AdditionalProperties.Not == nil && len(t.AdditionalProperties.Type) == 0 ==> dyn(last(result0.Fields).Type) == "codegen.EmptyInterfaceType"
+//@   ensures [C09] object-default-carried: result1 == nil ==> ((result0.DefaultValue != nil) <==> t.Default != nil)
 
 // ---- objects without properties become maps of their additionalProperties type (generateStructType) ----
 //@ func (*schemaGenerator).generateStructType@map-arm
